@@ -174,8 +174,33 @@ class Weaver:
         self.block_fns = []     # (name, tags, body text) of fns extracted in the current impl block
         self.auto_helpers = []
         self._prescan(self.spec_path)
+        # the unit's configuration is needed before the first `//@ ifcfg`
+        for l in open(self.spec_path, encoding="utf-8").read().split("\n"):
+            if l.strip().startswith("//@ config "):
+                for kv in l.strip()[len("//@ config "):].split():
+                    k, v = kv.split("=")
+                    self.config[k] = (v == "true")
+        self.config.update(self.config_override)
         self.process(self.spec_path)
         return self
+
+    def _apply_ifcfg(self, lines):
+        """`//@ ifcfg K` / `//@ ifnot K` ... `//@ endif`: lines of inactive regions are blanked (line numbers preserved)."""
+        out, stack = [], []
+        for l in lines:
+            t = l.strip()
+            if t.startswith("//@ ifcfg ") or t.startswith("//@ ifnot "):
+                key = t.split()[2]
+                val = bool(self.config.get(key, False))
+                stack.append(val if t.startswith("//@ ifcfg ") else not val)
+                out.append("")
+            elif t == "//@ endif":
+                if stack:
+                    stack.pop()
+                out.append("")
+            else:
+                out.append(l if all(stack) else "")
+        return out
 
     def _prescan(self, path):
         try:
@@ -204,6 +229,7 @@ class Weaver:
             L = open(path, encoding="utf-8").read().split("\n")
         except OSError as e:
             raise AnchorLoss("spec include missing: %s" % e)
+        L = self._apply_ifcfg(L)
         self.spec_lines = L
         i = 0
         while i < len(L):
